@@ -583,6 +583,12 @@ def _sql2_oracle(scico):
         if res > bound:
             return {"what": "SquaredL2Loss.prox does not solve (I+2 a lam A^H W A)x = v+2 a lam A^H W y to the configured tolerance",
                     "residual": float(res), "bound": float(bound), "x": G.il(x, cplx).tolist(), "solution": G.il(xs, cplx).tolist()}
+        zz = np.arange(1.0, n + 1) * (1 - 0.5j if cplx else 1.0)
+        AWA = Ad.conj().T @ (w[:, None] * Ad)
+        hz = np.asarray(L.hessian(snp.array(zz)))
+        if not np.allclose(hz, 2 * b2f(case["scale"]) * (AWA @ zz), rtol=1e-9, atol=1e-9):
+            return {"what": "SquaredL2Loss.hessian is not 2*scale*A^H W A", "z": G.il(zz, cplx).tolist(), "hessian(z)": G.il(hz, cplx).tolist(),
+                    "2 scale A^H W A z": G.il(2 * b2f(case["scale"]) * (AWA @ zz), cplx).tolist()}
         if case.get("rescale"):
             how, cb = case["rescale"]
             c_ = b2f(cb)
@@ -593,6 +599,10 @@ def _sql2_oracle(scico):
             else:
                 L.set_scale(c_)
                 L2, s2 = L, c_
+            hz2 = np.asarray(L2.hessian(snp.array(zz)))
+            if not np.allclose(hz2, 2 * s2 * (AWA @ zz), rtol=1e-9, atol=1e-9):
+                return {"what": f"after use, the loss rescaled by {how} {c_} has a hessian that is not 2*(new scale {s2})*A^H W A (history: prox/hessian used, then rescaled)",
+                        "z": G.il(zz, cplx).tolist(), "hessian(z)": G.il(hz2, cplx).tolist(), "expected": G.il(2 * s2 * (AWA @ zz), cplx).tolist()}
             c2 = 2 * s2 * b2f(case["lam"])
             lhs2 = np.eye(n) + c2 * Ad.conj().T @ (w[:, None] * Ad)
             rhs2 = v + c2 * Ad.conj().T @ (w * y)
@@ -696,7 +706,10 @@ def run_sql2_case(ctx, model, scico, case, oracle):
             r0 = np.asarray(b2fs(model.call("sql2res", scale=case["scale"], lam=case["lam"], A=[fs2b(r_) for r_ in AR], ncols=AR.shape[1],
                                             w=fs2b(wr), y=case["y"], v=case["v"], x=fs2b(o_[1]))))
             if not float(np.linalg.norm(r0)) <= bound:
-                ctx.disagree("sql2.x0.system", case, float(np.linalg.norm(r0)), bound, oracle=oracle, note=how_)
+                fail0 = {"what": f"{how_} does not solve (I+2 a lam A^H W A)x = v+2 a lam A^H W y to the configured tolerance (with the default start it does)",
+                         "x0": None if idx == 2 else G.il(np.asarray(X0), cplx).tolist(), "residual": float(np.linalg.norm(r0)), "bound": bound,
+                         "x": np.asarray(o_[1]).tolist()}
+                ctx.disagree("sql2.x0.system", case, float(np.linalg.norm(r0)), bound, oracle=lambda _c, fail0=fail0: fail0, note=how_)
                 break
     # the hessian the system is built from
     z = snp.array(G.dy(ctx.rng, (n,), cplx))
@@ -1170,6 +1183,13 @@ def correspond(ctx, model):
         case["v"] = G.random_arg_json(ctx.rng, shape, False)
         case["lam"] = f2b(G.pos_dyadic(ctx.rng))
         run_tree_case(ctx, model, scico, case, oracle, "translate")
+    for _ in range(ctx.n(30, 250)):
+        case = G.gen_same_object_case(ctx.rng)
+        shape = G.norm_shape(case["shape"])
+        case["x"] = G.random_arg_json(ctx.rng, shape, case["cplx"])
+        case["v"] = G.random_arg_json(ctx.rng, shape, case["cplx"], scale=4.0)
+        case["lam"] = f2b(G.pos_dyadic(ctx.rng))
+        run_tree_case(ctx, model, scico, case, oracle, "same-object")
     for _ in range(ctx.n(80, 800)):
         run_sql2_case(ctx, model, scico, gen_sql2_case(ctx), soracle)
     for _ in range(ctx.n(25, 250)):
